@@ -37,6 +37,10 @@ type c3fCase struct {
 	// DotImport: a hand-written file of the target package dot-imports the first referenced package (and renames the second
 	// one); the generated file chooses its own import names all the same
 	DotImport bool `json:"dotimport,omitempty"`
+	// ChainOnly: packages (indices into Dirs, >= 2) that the body mentions only at the head of a longer selector chain
+	// (pkg.Default<i>.A, pkg.T<i>{}.M()); StdChain adds unicode.Latin.R16 as the only mention of package unicode
+	ChainOnly []int `json:"chainonly,omitempty"`
+	StdChain  bool  `json:"stdchain,omitempty"`
 }
 
 var c3fDirPool = []string{
@@ -81,6 +85,16 @@ func genC03File(t *rapid.T) c3fCase {
 		}
 	}
 	c.OwnRef = rapid.Bool().Draw(t, "ownref")
+	for i := 2; i < len(c.Dirs); i++ {
+		twice := false
+		for _, j := range c.Twice {
+			twice = twice || j == i
+		}
+		if !twice && rapid.IntRange(0, 2).Draw(t, "chainonly") == 0 {
+			c.ChainOnly = append(c.ChainOnly, i)
+		}
+	}
+	c.StdChain = rapid.IntRange(0, 2).Draw(t, "stdchain") == 0
 	if rapid.IntRange(0, 2).Draw(t, "skipref") == 0 {
 		c.SkipRef = rapid.SampledFrom([]string{"time.Duration", "os.File", "net/url.URL", "crypto/rand.Reader"}).Draw(t, "skiprefv")
 		c.SkipErr = rapid.SampledFrom([]string{"skip", "ignore", "wrapskip"}).Draw(t, "skiperr")
@@ -99,6 +113,7 @@ func (c c3fCase) module() (modspec.Mod, []string) {
 		m.Pkgs = append(m.Pkgs, modspec.Pkg{Dir: d, Name: fmt.Sprintf("pkg%d", i), Files: []modspec.GoFile{{Name: "t.go", Decls: []modspec.Decl{
 			{Kind: "struct", Name: fmt.Sprintf("T%d", i), Fields: []modspec.Field{{Names: []string{"A"}, Type: "int"}}},
 			{Kind: "raw", Text: fmt.Sprintf("type G%d[A, B any] struct {\n\tX A\n\tY B\n}", i)},
+			{Kind: "raw", Text: fmt.Sprintf("var Default%d = T%d{}\n\nfunc (T%d) M() int { return 0 }", i, i, i)},
 		}}}})
 		refs = append(refs, fmt.Sprintf("%s/%s.T%d", c.ModPath, d, i))
 	}
@@ -138,7 +153,28 @@ func oracleC03File(c c3fCase) error {
 	}
 	// one generic instantiation over the first two packages
 	text := "\n"
+	chainOnly := map[string]int{}
+	for _, i := range c.ChainOnly {
+		chainOnly[refs[i]] = i
+	}
+	if c.StdChain {
+		all = append(all, "unicode.Latin")
+	}
 	for i := range all {
+		if ci, ok := chainOnly[all[i]]; ok {
+			// the package is mentioned only at the head of a selector chain
+			if ci%2 == 0 {
+				all[i] = strings.TrimSuffix(all[i], fmt.Sprintf(".T%d", ci)) + fmt.Sprintf(".Default%d", ci)
+				text += fmt.Sprintf("var _c%d = @R%d.A\n\n", i, i)
+			} else {
+				text += fmt.Sprintf("var _c%d = @R%d{}.M()\n\n", i, i)
+			}
+			continue
+		}
+		if all[i] == "unicode.Latin" {
+			text += fmt.Sprintf("var _c%d = @R%d.R16\n\n", i, i)
+			continue
+		}
 		if strings.HasSuffix(all[i], ".Unwrap") {
 			text += fmt.Sprintf("var _v%d = @R%d\n\n", i, i) // a function, not a type
 		} else {
@@ -207,6 +243,9 @@ func oracleC03File(c c3fCase) error {
 	}
 	for _, s := range c.Std {
 		want[s[:strings.LastIndex(s, ".")]] = true
+	}
+	if c.StdChain {
+		want["unicode"] = true
 	}
 	if c.SkipRef != "" && strings.Contains(string(src), "_skipped") {
 		// what was rendered before the ErrSkip/ErrIgnore return is in the file, so its package is referenced
@@ -305,6 +344,9 @@ func c3fClasses(c c3fCase) []string {
 	}
 	if len(c.Std) > 0 {
 		fs["std-import"] = true
+	}
+	if len(c.ChainOnly) > 0 || c.StdChain {
+		fs["package-mentioned-only-at-the-head-of-a-selector-chain"] = true
 	}
 	out := make([]string, 0, len(fs))
 	for k := range fs {
